@@ -491,7 +491,8 @@ def check_monotone(V, run, lo, hi, clause, site, direction=1):
     ok_all = True
     for p in paths:
         a, b = p.state.bounds["p0"]
-        ok = p.mono in (direction, 0) or a == b
+        rr = ret_rng(p)
+        ok = p.mono in (direction, 0) or a == b or (rr is not None and rr[0] == rr[1])     # a constant is monotone
         V.oblige(ok)
         if not ok:
             ok_all = False
